@@ -938,6 +938,68 @@ def mk_act(act):
     return {"kind": "probe", "tmpl": "act-" + act["variant"], "src": "\n".join(out) + "\n", "events": [{"type": "Ping"}] * act["pings"], "act": act}
 
 
+# --- ref (fn level): the lookup `_get_reference_activated_flow_instance` and the StartFlow decision built on it, on states
+#     assembled from the real `create_flow_instance` / `add_new_flow_instance` / `_start_flow`: 0-4 instances of one flow
+#     created by arbitrary calls (k positionals / named / omitted; values from small per-parameter pools so that equal and
+#     different values meet; Python-equal values of different type, dicts/sets in another order), activation counter 0/1/2,
+#     parent = main / gone / None / an instance of the same flow (restarted child); the query call likewise (also with a
+#     named/positional clash, `activated` = True / 1 / False / missing) issued by main / by an instance of the same flow
+#     (restart) / by a finished flow.  Model: `refActivated` / `startDecision` on the instances the MODEL's
+#     `createFlowInstance` makes from the same calls.
+
+REF_VALS = [None, True, False, 0, 1, 1.0, 2, 7, "x", "", 1.5, [1, 2], [1, True], [], {"k": 1, "j": 2}, {"j": 2, "k": 1}, {"k": 1}, {1, 2}, {2, 7}]
+
+
+def g_ref_call(rng, names, pools, allow_clash=False):
+    n = len(names)
+    k = rng.choice([0, 0, 0, 1, 1, 2, 3])
+    k = min(k, n)
+    pos = [rng.choice(pools[i]) for i in range(k)]
+    named = [[nm, rng.choice(pools[i])] for i, nm in enumerate(names) if i >= k and rng.random() < 0.45]
+    if allow_clash and k and rng.random() < 0.08:
+        i = rng.randrange(k)
+        named.append([names[i], rng.choice(pools[i])])
+    rng.shuffle(named)
+    return {"pos": [vj.enc(v) for v in pos], "named": [[k_, vj.enc(v)] for k_, v in named]}
+
+
+def g_ref(rng):
+    n = rng.choice([1, 1, 2, 2, 3])
+    names = rng.sample(PNAMES, n)
+    pools, params = [], []
+    for nm in names:
+        pool = rng.sample(REF_VALS, rng.choice([2, 2, 3]))
+        has_d = rng.random() < 0.65
+        d = rng.choice(pool) if rng.random() < 0.8 else rng.choice(REF_VALS)
+        if isinstance(d, set) and not d:
+            d = {1, 2}
+        params.append({"name": nm, "default": lit(d) if has_d else None})
+        pools.append(pool + ([d] if has_d else [None]))
+    insts = []
+    for _ in range(rng.choice([0, 1, 1, 2, 2, 3, 4])):
+        insts.append(dict(g_ref_call(rng, names, pools), activated=rng.choice([1, 1, 1, 1, 2, 0]),
+                          parent=rng.choice(["main"] * 8 + ["gone", "none", "same"])))
+    q = g_ref_call(rng, names, pools, allow_clash=True)
+    q["activated"] = rng.choice([True] * 8 + [1, False, "missing"])
+    src = rng.choice(["main"] * 6 + ["child", "child", "done"])
+    if src == "child" and not insts:
+        src = "main"
+    q["src"] = src
+    q["src_inst"] = rng.randrange(len(insts)) if src == "child" else None
+    return {"kind": "ref", "params": params, "insts": insts, "query": q}
+
+
+def _ref_user_ev(call):
+    ev = [[f"${i}", v] for i, v in enumerate(call["pos"])]
+    for k, v in call["named"]:
+        hit = [kv for kv in ev if kv[0] == arg_key(k)]
+        if hit:
+            hit[0][1] = v
+        else:
+            ev.append([arg_key(k), v])
+    return ev
+
+
 def gen_cases(rng, tier):
     global _TIER
     _TIER = tier
@@ -951,6 +1013,7 @@ def gen_cases(rng, tier):
     cases += [g_when_probe(rng) for _ in range(2 * n_probe)]
     cases += [g_restart_probe(rng) for _ in range(n_probe)]
     cases += [g_act_probe(rng) for _ in range(5 * n_probe)]
+    cases += [g_ref(rng) for _ in range(n_fn // 4)]
     return cases
 
 
@@ -1173,12 +1236,95 @@ def _mutates(case):
     return case["kind"] == "probe" and (case["tmpl"].startswith(("inplace-", "restart-")) or ".append(" in case["src"] or ".update(" in case["src"])
 
 
+def run_ref(case):
+    """real `_get_reference_activated_flow_instance`, then real `_process_internal_events_without_default_matchers` for the
+    StartFlow event, on a state assembled by the real constructor functions"""
+    sm = _SM
+    from nemoguardrails.colang.v2_x.runtime.flows import FlowStatus, InternalEvent
+
+    src = render_sig("f", case["params"], []) + "\n  match Never()\n\nflow g\n  match Never()\n\nflow main\n  match Never()\n"
+    obs = {"src": src}
+    try:
+        with contextlib.redirect_stdout(io.StringIO()):
+            st = _build(src)
+    except Exception as e:  # noqa
+        obs["skip"] = "parse:" + type(e).__name__
+        return obs
+    main_uid = st.main_flow_state.uid
+
+    def mk(flow, uid, call, source_uid, activated):
+        ev = {k: vj.dec(v) for k, v in _ref_user_ev(call)}
+        ev.update({"flow_id": flow, "flow_instance_uid": uid, "source_flow_instance_uid": source_uid, "source_head_uid": "h1",
+                   "flow_hierarchy_position": "0.1"})
+        if activated != "missing":
+            ev["activated"] = activated
+        return ev
+
+    fss = []
+    try:
+        for i, inst in enumerate(case["insts"]):
+            ev = mk("f", "(f)u%d" % i, inst, main_uid, True)
+            fs = sm.create_flow_instance(st.flow_configs["f"], ev["flow_instance_uid"], "0.1", ev)
+            sm.add_new_flow_instance(st, fs)
+            sm._start_flow(st, fs, ev)
+            fss.append(fs)
+        for fs, inst in zip(fss, case["insts"]):
+            fs.activated = inst["activated"]
+            fs.parent_uid = {"main": main_uid, "gone": "(g)gone", "none": None, "same": fss[0].uid}[inst["parent"]]
+    except Exception as e:  # noqa
+        obs["skip"] = "setup:" + _exc_name(e)
+        return obs
+    q = case["query"]
+    source_uid = main_uid
+    if q["src"] == "child":
+        source_uid = fss[q["src_inst"]].uid
+    elif q["src"] == "done":
+        gev = mk("g", "(g)u9", {"pos": [], "named": []}, main_uid, "missing")
+        gs = sm.create_flow_instance(st.flow_configs["g"], "(g)u9", "0.2", gev)
+        sm.add_new_flow_instance(st, gs)
+        sm._start_flow(st, gs, gev)
+        gs.status = FlowStatus.FINISHED
+        source_uid = gs.uid
+    qev = mk("f", "(f)q", q, source_uid, q["activated"])
+    known = "f" in st.flow_id_states
+    obs["known"] = known
+    ids = [id(fs) for fs in st.flow_id_states.get("f", [])]
+    if known:
+        try:
+            r = sm._get_reference_activated_flow_instance(st, InternalEvent(name="StartFlow", arguments=dict(qev)))
+            obs["ref"] = None if r is None else ids.index(id(r))
+        except Exception as e:  # noqa
+            obs["ref"] = "err:" + _exc_name(e)
+    before = [fs.activated for fs in fss]
+    event = InternalEvent(name="StartFlow", arguments=dict(qev))
+    try:
+        sm._process_internal_events_without_default_matchers(st, event)
+        now = st.flow_id_states.get("f", [])
+        if len(now) > len(ids):
+            # (whose child the new instance becomes: index of the f-instance named as source after the branch, None = not an f-instance)
+            su = event.arguments["source_flow_instance_uid"]
+            uids = [fs.uid for fs in fss]
+            obs["decision"] = ["create", uids.index(su) if su in uids else None]
+            new = now[-1]
+            sm._start_flow(st, new, event.arguments)   # what the interpreter does next with the new instance
+            obs["new_params"] = [[p["name"], _enc_safe(new.context.get(p["name"]))] for p in case["params"]]
+        else:
+            bumped = [i for i, fs in enumerate(fss) if fs.activated != before[i]]
+            obs["decision"] = ["reuse", bumped[0]] if len(bumped) == 1 and fss[bumped[0]].activated == before[bumped[0]] + 1 else \
+                ("ignored" if not bumped else "other:" + json.dumps(bumped))
+    except Exception as e:  # noqa
+        obs["decision"] = "err:" + _exc_name(e)
+    return obs
+
+
 _TIER = None  # set by gen_cases in the parent before the worker pool is forked
 
 
 def run_impl(case):
     if case["kind"] == "fn":
         return run_fn(case)
+    if case["kind"] == "ref":
+        return run_ref(case)
     # quick tier / replay / shrinking: EVERY program runs isolated (a replay must reproduce in a fresh process whatever
     # module-level state an earlier program left in the code under test); thorough tier: the programs that mutate in place
     iso = _TIER != "thorough" or _mutates(case)
@@ -1200,6 +1346,22 @@ def model_requests(case, obs):
         return []
     if case["kind"] == "fn":
         return [{"m": "C08.bind", "params": case["params"], "rets": case["rets"], "ev": case["ev"], "main": False, "asis": not REPAIRED}]
+    if case["kind"] == "ref":
+        if not REPAIRED:   # the lookup is modelled with the repaired argument keys only
+            return []
+        q = case["query"]
+        base = [["flow_id", {"s": "f"}], ["flow_instance_uid", {"s": "(f)u"}], ["source_flow_instance_uid", {"s": "@src"}],
+                ["source_head_uid", {"s": "h1"}], ["flow_hierarchy_position", {"s": "0.1"}]]
+
+        def full(call, activated):
+            ev = _ref_user_ev(call) + base
+            return ev + ([] if activated == "missing" else [["activated", vj.enc(activated)]])
+
+        insts = [{"ev": full(i_, True), "activated": i_["activated"], "parentAlive": i_["parent"] in ("main", "same"),
+                  "parentSame": i_["parent"] == "same"} for i_ in case["insts"]]
+        srcj = {"main": {"flow": "main", "done": False, "activated": 1}, "done": {"flow": "g", "done": True, "activated": 0},
+                "child": {"flow": "f", "done": False, "activated": case["insts"][q["src_inst"]]["activated"] if q["src"] == "child" else 0}}[q["src"]]
+        return [{"m": "C08.refact", "params": case["params"], "insts": insts, "ev": full(q, q["activated"]), "src": srcj, "known": obs["known"]}]
     if case["kind"] == "e2e" and case.get("mode", "").startswith("hist"):
         # in-place mutation: only the heap interpreter models it
         p = case["prog"]
@@ -1238,6 +1400,15 @@ def compare(case, obs, mouts):
         fm = [kv for kv in smo["finished"] if kv[0] not in ("source_flow_instance_uid", "flow_instance_uid")]
         if fi != fm:
             return f"finished_event arguments: impl {fi} model {fm}"
+        return None
+    if case["kind"] == "ref":
+        if obs.get("known") and obs.get("ref") != m["ref"] and case["query"]["activated"] != "missing":
+            return f"_get_reference_activated_flow_instance: impl {obs.get('ref')} model {m['ref']}"
+        md = m["decision"]
+        if isinstance(md, list) and md[0] == "create" and md[1] is None and case["query"]["src"] == "child":
+            md = ["create", case["query"]["src_inst"]]   # not re-parented: the source stays the requesting f-instance
+        if obs["decision"] != md:
+            return f"StartFlow decision: impl {obs['decision']} model {md}"
         return None
     # e2e: every model output (value interpreter `exec`, heap interpreter `hexec`) against the real run
     for which, m in zip(("exec", "hexec") if len(mouts) == 2 else ("hexec",), mouts):
@@ -1572,6 +1743,50 @@ def oracle_act(case, obs):
     return None
 
 
+def oracle_ref(case, obs):
+    """the statement at the lookup: an `activate` call may be attached to a running activation only if EVERY parameter
+    value the statement gives the call (positional | named | declared default | None) equals the value it gave the call
+    that created that activation; a call issued by a live flow is never dropped"""
+    q = case["query"]
+
+    def vals(call):
+        return spec_bind(case["params"], [vj.dec(v) for v in call["pos"]], _named_dict(call["named"]))
+
+    try:
+        want = vals(q)
+    except _NoExpectation:
+        return None
+    for what, j in (("lookup", obs.get("ref")), ("decision", obs["decision"][1] if isinstance(obs["decision"], list) and obs["decision"][0] == "reuse" else None)):
+        if isinstance(j, int) and not isinstance(j, bool):
+            try:
+                have = vals(case["insts"][j])
+            except _NoExpectation:
+                continue
+            for p in case["params"]:
+                if not (have[p["name"]] == want[p["name"]]):
+                    return (f"{what}: the call is attached to running activation #{j} whose parameter ${p['name']} is "
+                            f"{vj.enc(have[p['name']])}, the call's value is {vj.enc(want[p['name']])}")
+    if q["src"] == "main" and q["activated"] is True:
+        d = obs["decision"]
+        if d == "ignored" or (isinstance(d, str) and d.startswith(("err", "other"))):
+            return f"an activate call of a live flow: StartFlow decision {d}"
+        if isinstance(d, list) and d[0] == "create":
+            got = {k: v for k, v in obs.get("new_params", [])}
+            for p in case["params"]:
+                if got.get(p["name"]) != _cenc(want[p["name"]]):
+                    return f"new instance: parameter ${p['name']} is {got.get(p['name'])}, the call's value is {_cenc(want[p['name']])}"
+    return None
+
+
+def _named_dict(named):
+    d = {}
+    for k, v in named:
+        if k in d:
+            raise _NoExpectation("duplicate named argument")
+        d[k] = vj.dec(v)
+    return d
+
+
 def oracle(case, obs):
     if "skip" in obs:
         return None
@@ -1601,6 +1816,8 @@ def oracle(case, obs):
         return None
     if case["kind"] == "e2e":
         return oracle_e2e(case, obs)
+    if case["kind"] == "ref":
+        return oracle_ref(case, obs)
     # probe
     if "exc" in obs:
         return f"run_to_completion raised {obs['exc']}"
@@ -1675,6 +1892,8 @@ def _passes_container(prog):
 def nontrivial(case, obs):
     if case["kind"] == "fn":
         return len(case["params"]) >= 1 and "skip" not in obs
+    if case["kind"] == "ref":
+        return "skip" not in obs and len(case["insts"]) >= 1
     if case["kind"] == "e2e":
         return any(s["op"] == "call" and (s["pos"] or s["named"] or s.get("ret")) for s in case["prog"]["main"]) or \
             (case.get("mode", "").startswith("hist") and sum(1 for s in case["prog"]["main"] if s["op"] == "call") >= 2)
@@ -1697,6 +1916,13 @@ def tags(case, obs):
             t.append("has:default")
         if _has_reserved(case["params"]):
             t.append("has:reserved-name")
+    elif case["kind"] == "ref":
+        t.append("ref:insts=%d" % len(case["insts"]))
+        t.append("ref:lookup=" + ("none" if obs.get("ref") is None else "hit" if isinstance(obs.get("ref"), int) else str(obs.get("ref"))))
+        d = obs.get("decision")
+        t.append("ref:decision=" + (d[0] + ("-child" if d[0] == "create" and d[1] is not None else "") if isinstance(d, list) else str(d)))
+        t.append("ref:src=" + case["query"]["src"])
+        t.append("ref:activated=" + str(case["query"]["activated"]))
     elif case["kind"] == "e2e":
         t.append("mode:" + case["mode"])
         forms = {s["form"] for s in case["prog"]["main"] if s["op"] == "call"}
@@ -1786,6 +2012,18 @@ def shrink(case):
                 yield dict(case, params=case["params"][:i] + [dict(p, default=None)] + case["params"][i + 1:])
         if case["rets"]:
             yield dict(case, rets=[])
+    elif case["kind"] == "ref":
+        for i in range(len(case["insts"])):
+            q = case["query"]
+            if q["src"] == "child" and q["src_inst"] == i:
+                continue
+            q2 = dict(q, src_inst=q["src_inst"] - 1) if q["src"] == "child" and q["src_inst"] > i else q
+            if i == 0 and any(x["parent"] == "same" for x in case["insts"][1:]):
+                continue
+            yield dict(case, insts=case["insts"][:i] + case["insts"][i + 1:], query=q2)
+        for i, p in enumerate(case["params"]):
+            if p.get("default") is not None:
+                yield dict(case, params=case["params"][:i] + [dict(p, default=None)] + case["params"][i + 1:])
     elif case["kind"] == "probe" and "act" in case:
         a = case["act"]
         nc = len(a["calls"])
